@@ -109,13 +109,27 @@ BIASES = ['X', 'Y', 'Z']
 ETAS = ['0.5', '10', 'inf', '0.5,10', '1,3,inf', '2,2.5,30']      # the last: ratios that are close together
 # single value, lists and ranges; two of them start at an error rate of exactly 0
 PROBS = ['0.1', '0,0.1', '0.05,0.1,0.2', '0.1:0.3:0.1', '0:0.1:0.05']
+# rates on grids finer than 1e-4 (single, list, range): they must come back exactly, not rounded
+PROBS_FINE = ['0.00125', '0.00005,0.0001,0.00015', '0.001:0.002:0.00025']
+# quick: the fine-grid specs are paired with the decoders that cost nothing to construct on read-back
+# (the rate list is written by generate-input before the decoder name matters); thorough: with all
+FINE_QUICK_DECODERS = ['BeliefPropagationOSDDecoder', 'UnionFindDecoder']
+RATE_RTOL = 1e-12      # a rate read back equals a requested rate when |p - r| <= RATE_RTOL * |r| (r = 0: p == 0)
 METHODS = ['direct', 'splitting']
 LABELS = [None, 'a']
 NOISE = 'PauliErrorModel'
 
-STEPS_Q = ['0.1', '0.05', '0.02', '0.01']
-STEPS_T = STEPS_Q + ['0.005', '0.001']
+STEPS_FINE = ['0.00025', '0.0001']          # fine steps, with a small max of their own
+STEPS_Q = ['0.1', '0.05', '0.02', '0.01'] + STEPS_FINE
+STEPS_T = ['0.1', '0.05', '0.02', '0.01', '0.005', '0.001'] + STEPS_FINE
 RANGE_MAX = '0.6'
+RANGE_MAX_FINE = '0.003'
+
+
+def _range_max(step):
+    return RANGE_MAX_FINE if step in STEPS_FINE else RANGE_MAX
+
+
 LIST_LEN = 12          # comma-list form: progressions of 2..LIST_LEN values
 CHUNK_TRIPLES = 8000   # range triples per case item
 
@@ -123,9 +137,10 @@ BOUNDS = {
     'quick': {
         'generate': {'code_size_decoder': 'sub-box: the (class, size list, decoder) triples of QUICK_TRIPLES',
                      'bias': BIASES, 'eta': ETAS, 'prob': PROBS,
+                     'prob_fine_grid': {'specs': PROBS_FINE, 'with_decoders': FINE_QUICK_DECODERS},
                      'deformation': 'None and every name the class offers (CLASS_DEFORMATIONS)',
                      'method': METHODS, 'label': LABELS, 'noise': [NOISE]},
-        'range': {'steps': STEPS_Q, 'max': RANGE_MAX, 'list_len': LIST_LEN},
+        'range': {'steps': STEPS_Q, 'max': RANGE_MAX, 'max_for_fine_steps': RANGE_MAX_FINE, 'list_len': LIST_LEN},
     },
     'thorough': {
         'generate': {'code_size_decoder': 'all 2-D classes x {3x3; 3x3,5x5} and all 3-D classes whose family holds '
@@ -134,11 +149,11 @@ BOUNDS = {
                                           'classes only)',
                      'mbp_classes': MBP_CLASSES,
                      'classes_2d': DIM2, 'classes_3d': DIM3,
-                     'bias': BIASES, 'eta': ETAS, 'prob': PROBS,
+                     'bias': BIASES, 'eta': ETAS, 'prob': PROBS + PROBS_FINE,
                      'deformation': 'None and every name the class offers', 'class_deformations': CLASS_DEFORMATIONS,
                      'own_sizes': DIM3_OWN_SIZES,
                      'method': METHODS, 'label': LABELS, 'noise': [NOISE]},
-        'range': {'steps': STEPS_T, 'max': RANGE_MAX, 'list_len': LIST_LEN},
+        'range': {'steps': STEPS_T, 'max': RANGE_MAX, 'max_for_fine_steps': RANGE_MAX_FINE, 'list_len': LIST_LEN},
     },
 }
 BUDGET_S = {'quick': 600, 'thorough': 3600}
@@ -215,7 +230,7 @@ def _dstr(x):
 def _range_cases(steps):
     out = []
     for step in steps:
-        n = int(Decimal(RANGE_MAX) / Decimal(step))
+        n = int(Decimal(_range_max(step)) / Decimal(step))
         a_lo, acc = 0, 0
         for a in range(n):
             acc += n - a
@@ -242,9 +257,10 @@ def cases(tier, seed):
                     # the slow decoder gets one case item per eta list to keep items balanced
                     groups = [[e] for e in ETAS] if dec == 'MemoryBeliefPropagationDecoder' else [ETAS]
                     for etas in groups:
+                        fine = tier != 'quick' or dec in FINE_QUICK_DECODERS
                         gen.append({'part': 'generate', 'cls': cls, 'sizes': sizes, 'decoder': dec,
                                     'method': method, 'deformation': deformation, 'bias': bias,
-                                    'etas': list(etas)})
+                                    'etas': list(etas), 'probs': PROBS + (PROBS_FINE if fine else [])})
     # histories: several generate-input invocations in ONE process (a session / a script calling the
     # command repeatedly); every invocation is judged by the same absolute oracle as when run alone
     hist = []
@@ -460,7 +476,7 @@ def _one_invocation(case, eta, prob, label, dim):
             cell = (size_list.index(size), k_eta[0])
             sims_per_cell[cell] = sims_per_cell.get(cell, 0) + 1
             for p in sim_rates:
-                k_rate = [k for k, fr in enumerate(frates) if abs(p - fr) <= 1e-9]
+                k_rate = [k for k, fr in enumerate(frates) if abs(p - fr) <= RATE_RTOL * abs(fr)]
                 if not k_rate:
                     if rate_max is not None and p > float(rate_max) + 1e-9:
                         problems.append(('range-overshoots-max', dict(where, error_rate=p, max=str(rate_max))))
@@ -509,7 +525,7 @@ def _eval_generate(case):
     outcomes = set()
     # simplest first: fewer bias ratios, fewer rates
     for eta in sorted(case['etas'], key=lambda e: (e.count(','), ETAS.index(e))):
-        for prob in PROBS:
+        for prob in case.get('probs', PROBS):
             for label in LABELS:
                 problems, info = _one_invocation(case, eta, prob, label, dim)
                 res['evals'] += 1
@@ -560,7 +576,7 @@ def _eval_range(case):
 
     step_s = case['step']
     step = Decimal(step_s)
-    n = int(Decimal(RANGE_MAX) / step)
+    n = int(Decimal(_range_max(step_s)) / step)
     grid_d = [i * step for i in range(n + 1)]
     grid_s = [_dstr(x) for x in grid_d]
     grid_f = np.array([float(s) for s in grid_s])
@@ -601,7 +617,7 @@ def _eval_range(case):
             report('range-wrong-count', form, spec, a, b, tail)
         # first == min and every common element on the progression (count is judged above)
         m = min(len(got_a), len(want))
-        if m and float(np.max(np.abs(got_a[:m] - want[:m]))) > 1e-9:
+        if m and bool(np.any(np.abs(got_a[:m] - want[:m]) > RATE_RTOL * np.abs(want[:m]))):
             report('range-wrong-values', form, spec, a, b, dict(tail, returned_head=[float(x) for x in got_a[:3]],
                                                                 expected_head=[float(x) for x in want[:3]]))
 
